@@ -854,15 +854,30 @@ func miscRules() {
 		acc := cc.e.havoc(cc.resType(1), "acc")
 		return []string{cc.def("bf64", sortF64, fmt.Sprintf("((_ to_fp 11 53) RNE (to_real %s))", v)), acc}, true
 	}
+	one := "((_ to_fp 11 53) RNE 1.0)"
+	zero := "((_ to_fp 11 53) RNE 0.0)"
 	for _, fn := range []string{"Log2", "Log10", "Ceil", "Floor", "Sqrt"} {
 		fn := fn
 		extRules["math."+fn] = func(cc *callCtx) ([]string, bool) {
-			cc.e.g().DeclFun("f64_"+fn, []string{sortF64}, sortF64)
+			g := cc.e.g()
+			g.DeclFun("f64_"+fn, []string{sortF64}, sortF64)
+			big := "((_ to_fp 11 53) RNE 2000.0)"
+			switch fn {
+			case "Log2", "Log10":
+				// for finite x >= 1: 0 <= log(x) <= 1024 < 2000
+				g.Axiom("math."+fn+".range", fmt.Sprintf("(forall ((x %s)) (! (=> (and (fp.geq x %s) (not (fp.isInfinite x))) (and (fp.geq (f64_%s x) %s) (fp.leq (f64_%s x) %s))) :pattern ((f64_%s x))))", sortF64, one, fn, zero, fn, big, fn))
+			case "Ceil", "Floor":
+				g.Axiom("math."+fn+".range", fmt.Sprintf("(forall ((x %s)) (! (=> (and (fp.geq x %s) (fp.leq x %s)) (and (fp.geq (f64_%s x) %s) (fp.leq (f64_%s x) ((_ to_fp 11 53) RNE 2001.0)))) :pattern ((f64_%s x))))", sortF64, zero, big, fn, zero, fn, fn))
+			case "Sqrt":
+				g.Axiom("math."+fn+".nonneg", fmt.Sprintf("(forall ((x %s)) (! (=> (fp.geq x %s) (fp.geq (f64_%s x) %s)) :pattern ((f64_%s x))))", sortF64, zero, fn, zero, fn))
+			}
 			return []string{cc.def("m"+fn, sortF64, fmt.Sprintf("(f64_%s %s)", fn, cc.arg(0)))}, true
 		}
 	}
 	extRules["math.Pow10"] = func(cc *callCtx) ([]string, bool) {
-		cc.e.g().DeclFun("f64_Pow10", []string{"Int"}, sortF64)
+		g := cc.e.g()
+		g.DeclFun("f64_Pow10", []string{"Int"}, sortF64)
+		g.Axiom("math.Pow10.ge1", fmt.Sprintf("(forall ((n Int)) (! (=> (>= n 0) (fp.geq (f64_Pow10 n) %s)) :pattern ((f64_Pow10 n))))", one))
 		return []string{cc.def("mPow10", sortF64, fmt.Sprintf("(f64_Pow10 %s)", cc.arg(0)))}, true
 	}
 	extRules["math/big.NewInt"] = func(cc *callCtx) ([]string, bool) {
